@@ -208,7 +208,7 @@ Proof. vm_compute. repeat split. Qed.
 
 (* capacity 1: the full cell refuses (place, move_to, move_relative), the layer stays right *)
 Example C11_empty_layer_example :
-  let ops := ex_ops ++ [Place 8 [0; 1]; Move 7 [1; 1]; MoveRel 7 [-1; 0] false; MoveRel 7 [-1; -1] false;
+  let ops := ex_ops ++ [Place 8 [0; 1]; Move 7 [1; 1]; MoveRel 7 [-1; 0] 1 false; MoveRel 7 [-1; -1] 1 false;
                         Place 8 [0; 0]; Move 8 [0; 1]; RemoveLayer 2; Remove 7] in
   clean ops = true /\
   map (fun c => layer_read (run_state (init true false 1 [2; 2]) ops) EMPTY c) (all_coords [2; 2])
@@ -225,7 +225,7 @@ Proof. eexists. vm_compute. repeat split. Qed.
 
 Example C18_proplayer_full_cell_example :
   let st := run_state (init true false 1 [2; 2]) [Create 1 1 0; Place 1 [0; 0]; Place 2 [0; 1]] in
-  map (fun o => step st o) [Place 3 [0; 0]; Move 2 [0; 0]; MoveRel 2 [0; -1] false; MoveRel 2 [0; 1] false]
+  map (fun o => step st o) [Place 3 [0; 0]; Move 2 [0; 0]; MoveRel 2 [0; -1] 1 false; MoveRel 2 [0; 1] 1 false]
     = [(st, RErr E_EXC); (st, RErr E_EXC); (st, RErr E_EXC); (st, RErr E_VALUE)].
 Proof. vm_compute. reflexivity. Qed.
 
@@ -399,4 +399,60 @@ Example C11_source_code_example :
   gen_remove_layer_d 1 [(0, 0); (1, 5)] [(0, 0); (1, 5)] [0; 1] = GOk ([(0, 0)], [(0, 0)], [0]) /\
   gen_add_layer_l 2 2 2 3 1 0 [] = GErr 1 [] /\ gen_remove_layer_l 1 [] = GErr 1 [] /\
   gen_nbhd_mask_d [2; 2] [[0; 1]; [1; 1]] = GOk [([0; 0], false); ([0; 1], true); ([1; 0], false); ([1; 1], true)].
+Proof. vm_compute. repeat split. Qed.
+
+(* ===================================================================================================
+   Round 3: get_neighborhood_mask and aggregate as operations of the model, hex / torus moves, dtype boundary
+   =================================================================================================== *)
+
+(* get_neighborhood_mask (the model's step runs the translated body on the neighbourhood the grid reports):
+   for EVERY neighbourhood inside the grid - the empty one included (fix C11-4) - the mask covers the
+   grid in row-major order and is True exactly on the neighbourhood; nothing else changes *)
+Theorem C11_nbhd_mask_exact : forall st nb,
+  forallb (valid_coord (s_dims st)) nb = true ->
+  step st (NbhdMask nb) =
+  (st, ROk (map (fun c => b2z (existsb (coord_eqb c) nb)) (all_coords (s_dims st)))).
+Proof. exact nbhd_mask_step. Qed.
+Print Assumptions C11_nbhd_mask_exact.
+
+(* aggregate / aggregate_property over an attached layer: np.sum is the sum, np.mean the sum over the
+   number of cells, np.max / np.min an attained bound - of exactly the values the cells show through
+   their attribute, cell by cell *)
+Theorem C11_aggregate_exact : forall st n id L,
+  inv st -> s_discrete st = true -> assoc n (s_grid st) = Some id -> get_obj st id = Some L ->
+  let cells := map (fun c => opt_z (cell_read st c n)) (all_coords (s_dims st)) in
+  step st (Aggregate (ByName n) SUM) = (st, ROk [zsum cells]) /\
+  step st (Aggregate (ByName n) MEAN) = (st, ROk [zsum cells; Z.of_nat (length (all_coords (s_dims st)))]) /\
+  (forall t, step st (Aggregate (ByName n) MAX) = (st, ROk [t]) -> In t cells /\ forall v, In v cells -> v <= t) /\
+  (forall t, step st (Aggregate (ByName n) MIN) = (st, ROk [t]) -> In t cells /\ forall v, In v cells -> t <= v).
+Proof. exact aggregate_exact. Qed.
+Print Assumptions C11_aggregate_exact.
+
+(* the documented boundary of the dtype modelling: over bool / int / float layers and operands, the
+   (layer dtype, form, operation, operand dtype) combinations the generators feed to modify_cells are EXACTLY
+   those for which NumPy's result dtype (dtype_result, validated against NumPy on every run by the
+   ProbeDtype operations of the correspondence) is the layer's own dtype *)
+Theorem C11_dtype_boundary : forall ldt fm f vdt,
+  0 <= ldt <= 2 -> 0 <= vdt <= 2 ->
+  (admissible ldt fm f vdt = true <-> dtype_result ldt fm f vdt = ldt).
+Proof. exact dtype_boundary. Qed.
+Print Assumptions C11_dtype_boundary.
+
+Example C11_round3_example :
+  (* a 1x1 grid: the neighbourhood without the centre is empty, the mask all False *)
+  step (init true false 0 [1; 1]) (NbhdMask []) = (init true false 0 [1; 1], ROk [0]) /\
+  step (init false false 0 [2; 2]) (NbhdMask [[0; 1]; [1; 1]]) = (init false false 0 [2; 2], ROk [0; 1; 0; 1]) /\
+  (* hex torus 2x2: from (0,1) (odd row -> the "even" table) direction (-1,-1) wraps to (1,0);
+     (1,-1) is not a hex direction there *)
+  (let st := run_state (init true false 1 [2; 2]) [Place 1 [0; 1]; Place 2 [0; 0]] in
+   map snd (s_agents (fst (step st (MoveRel 1 [-1; -1] 2 true)))) = [[0; 0]; [1; 0]] /\
+   snd (step st (MoveRel 1 [1; -1] 2 true)) = RErr E_VALUE /\
+   snd (step st (MoveRel 1 [0; -1] 2 true)) = RErr E_EXC /\          (* (0,0) is full *)
+   snd (step st (MoveRel 1 [-1; -1] 2 false)) = RErr E_VALUE) /\       (* off the grid without the torus *)
+  (* aggregate over an int layer [0;2;2;1] *)
+  map (fun k => snd (step ex_st (Aggregate (ByName 1) k))) [0; 1; 2; 3; 7]
+    = [ROk [5]; ROk [2]; ROk [0]; ROk [5; 4]; RErr E_VALUE] /\
+  (* dtype: int layer + float operand -> float; bool negative -> TypeError; int + bool stays int *)
+  dtype_result 1 UBin (FAdd 8) 2 = 2 /\ dtype_result 0 UUn FNeg 0 = DT_TYPEERROR /\ dtype_result 1 UBin (FAdd 1) 0 = 1 /\
+  admissible 1 UBin (FAdd 8) 2 = false /\ admissible 1 PyFn (FMax 1) 0 = false /\ admissible 2 UBin (FMax 3) 1 = true.
 Proof. vm_compute. repeat split. Qed.
